@@ -70,6 +70,6 @@ def main():
         notes="See DESIGN.md. Fixed defects and open findings: KNOWN_FINDINGS.txt.",
         not_applicable=[dict(property_id=k, reason=v) for k, v in sorted(PENDING.items()) if k not in CLAIMS])
     json.dump(m, open(os.path.join(V, "MANIFEST.json"), "w"), indent=1)
-HOOK_COMMITS = ["07a43bf", "b01a4be", "07688ba"]
+HOOK_COMMITS = ["07a43bf", "b01a4be", "07688ba", "c6926b2"]
 if __name__ == "__main__":
     main()
